@@ -581,7 +581,7 @@ _NAMES = ["a", "b", "c", "d1/e", "d1/f", "d2/g"]
 
 
 @st.composite
-def description(draw, max_cmds=7, allow_dirs=False, allow_deps=True, allow_extra_tools=True, allow_amo=False):
+def description(draw, max_cmds=7, allow_dirs=False, allow_deps=True, allow_extra_tools=True, allow_amo=False, allow_mutated=False):
     nsrc = draw(st.integers(1, 4))
     sources = [draw(st.sampled_from(["src%d", "src%d", "sd/src%d", "sd/sub/src%d", "sd/a/src%d", "sd/zrc%d"])) % i for i in range(nsrc)]
     tree_ok = allow_dirs and any(s.startswith("sd/") for s in sources)
@@ -601,6 +601,7 @@ def description(draw, max_cmds=7, allow_dirs=False, allow_deps=True, allow_extra
     cmds = []
     avail = list(sources)      # nodes usable as inputs
     virt_nodes = []
+    mutated = []
     for i in range(ncmd):
         kind = draw(st.sampled_from(["shell"] * 6 + (["phony", "mkdir", "symlink"] if allow_extra_tools else [])))
         name = "C%d" % i
@@ -622,6 +623,12 @@ def description(draw, max_cmds=7, allow_dirs=False, allow_deps=True, allow_extra
             c = {"name": name, "tool": "shell", "inputs": ins, "outputs": outs, "salt": "s%d" % draw(st.integers(0, 2))}
             if allow_deps and draw(st.integers(0, 2)) == 0:
                 c["deps"] = draw(st.sampled_from(["makefile", "dependency-info", "makefile-ignoring-subsequent-outputs"]))
+            if allow_mutated and len(outs) >= 2 and draw(st.integers(0, 3)) == 0:
+                # one of the outputs is declared `is-mutated` (only its existence counts for the command's
+                # validity); the histories never tamper with it
+                real = [o for o in outs if not is_virtual(o)]
+                if len(real) >= 2:
+                    mutated.append(draw(st.sampled_from(real)))
             if allow_amo and draw(st.integers(0, 5)) == 0:
                 # outputs may be modified behind the command's back without invalidating it (the histories
                 # never tamper with them); everything else about the command is as usual
@@ -659,4 +666,7 @@ def description(draw, max_cmds=7, allow_dirs=False, allow_deps=True, allow_extra
     if orphan and (draw(st.booleans()) or not any(orphan in c.get("inputs", []) for c in cmds)):
         tk = draw(st.sampled_from(sorted(targets)))
         targets[tk] = targets[tk] + [orphan]
-    return {"commands": cmds, "targets": targets, "default": "t0", "sources": src_text, "includable": includable}
+    d = {"commands": cmds, "targets": targets, "default": "t0", "sources": src_text, "includable": includable}
+    if mutated:
+        d["nodes"] = {o: {"is-mutated": True} for o in mutated}
+    return d
